@@ -191,7 +191,7 @@ func c04NewWorld(nT int, used ...int) *c04World {
 		}
 		tpl, err := w.eng.ParseString(s)
 		if err != nil {
-			panic("harness: instrumented template does not parse: " + s + ": " + err.Error())
+			panic(explore.BaselineFailure{Msg: "harness: instrumented template does not parse: " + s + ": " + err.Error()})
 		}
 		w.tpls = append(w.tpls, tpl)
 	}
